@@ -219,9 +219,11 @@ def run_case(ctx):
             if not sel.any():
                 continue
             wantf = mand.upsample(want, fac)
+            with np.errstate(all="ignore"):
+                scalef = mand.upsample(np.maximum(np.abs(vl), np.abs(vr)), fac)
             # 1e-12 relative also on cell centres: a neighbouring box exactly half a cell away may
             # legitimately contribute a zero-weight sample, which costs an ulp
-            okm = mand.close(got[sel], wantf[sel], 1e-11)
+            okm = mand.close(got[sel], wantf[sel], 1e-11, scalef[sel])
             checked += int(sel.sum())
             if not okm.all():
                 bad = tuple(np.argwhere(sel)[np.argwhere(~okm)[0][0]])
